@@ -13,6 +13,7 @@ import (
 	"github.com/segmentio/encoding/json"
 	"verif/mc/explore"
 	"verif/mc/gen/jgen"
+	"verif/mc/props/c01"
 )
 
 const defaultFlags = json.EscapeHTML | json.SortMapKeys
@@ -130,8 +131,27 @@ var copyFlagSets = func() []json.ParseFlags {
 	return out
 }()
 
+var thoroughTypes []reflect.Type
+
+// thoroughTypeList adds C01's whole quick universe of type shapes (depth 2) to the list.
+func thoroughTypeList() []reflect.Type {
+	if thoroughTypes == nil {
+		seen := map[reflect.Type]bool{}
+		for _, t := range append(append([]reflect.Type{}, typeList()...), c01.TypeList(false)...) {
+			if !seen[t] {
+				seen[t] = true
+				thoroughTypes = append(thoroughTypes, t)
+			}
+		}
+	}
+	return thoroughTypes
+}
+
 func appendFlags(c *explore.Ctx) {
 	ts := typeList()
+	if c.Thorough() {
+		ts = thoroughTypeList()
+	}
 	t := ts[c.Choose(len(ts))]
 	dom := jgen.CachedDomain(t)
 	v := dom[c.Choose(len(dom))]
@@ -191,7 +211,7 @@ func appendFlags(c *explore.Ctx) {
 			c.Fail(fmt.Sprintf("meaning-differs:%03b:%s", fl, shape), "Append(flags %03b) = %s decodes differently from the default output %s for %s", fl, trunc(out), trunc(def), desc)
 			continue
 		}
-		if fl&json.EscapeHTML == 0 && fl&json.SortMapKeys != 0 {
+		if fl&json.EscapeHTML == 0 && fl&json.SortMapKeys != 0 && !c01.ContainsDuration(t, 0) {
 			var buf bytes.Buffer
 			e := stdjson.NewEncoder(&buf)
 			e.SetEscapeHTML(false)
@@ -459,7 +479,7 @@ func Spec() *explore.Spec {
 	return &explore.Spec{
 		ID: "C14",
 		Families: []*explore.Family{
-			{Name: "append-flags", ShardDepth: 1, Body: appendFlags, Doc: "~500 type shapes (all specialised and generic maps with 0/1/2/many entries, RawMessage valid/compact/whitespace/invalid, Number, any, marshalers that fail, HTML-sensitive keys) x boundary values x all 8 AppendFlags subsets (TrustRawMessage only for valid raws): error iff default flags error, valid JSON, same generic value as the default output, bytes equal to the standard Encoder with SetEscapeHTML(false), unsorted output of the same length, Encoder setters equivalent; every output parsed back with all 16 subsets of the non-semantic ParseFlags and compared with the original (for values encoding/json round-trips)"},
+			{Name: "append-flags", ShardDepth: 1, Body: appendFlags, Doc: "~500 (thorough: ~3500, all of C01's depth-2 universe) type shapes (all specialised and generic maps with 0/1/2/many entries, RawMessage valid/compact/whitespace/invalid, Number, any, marshalers that fail, HTML-sensitive keys) x boundary values x all 8 AppendFlags subsets (TrustRawMessage only for valid raws): error iff default flags error, valid JSON, same generic value as the default output, bytes equal to the standard Encoder with SetEscapeHTML(false), unsorted output of the same length, Encoder setters equivalent; every output parsed back with all 16 subsets of the non-semantic ParseFlags and compared with the original (for values encoding/json round-trips)"},
 			{Name: "number-kinds", ShardDepth: 2, Body: numberKinds, Doc: "23 number literals at every int64/uint64 boundary and beyond x {bare, in array, in object} x all 512 ParseFlags subsets: dynamic type per the documented precedence, numeric value preserved exactly (big.Float)"},
 			{Name: "parse-flags", ShardDepth: 1, Body: parseFlags, Doc: "typed targets x valid documents x all 512 ParseFlags subsets (minus DisallowUnknownFields): same decoded value as with no flags"},
 		},
